@@ -13,7 +13,7 @@ TECHNIQUE = ('property-based testing (Hypothesis) of generated multi-loop progra
 ASSUMPTIONS = ['cooperative shims (Lock, ThreadPoolExecutor, virtual-time loop) are faithful to the real primitives (vf/selftest)',
                'interleavings explored at source-line granularity of aiuti/asyncio.py and asyncio/runners.py',
                'wrapped function never swallows cancellation; loops are not restarted with a call pending except by asyncio.run shutdown']
-CORPUS_PREEMPTIONS = {}
+CORPUS_PREEMPTIONS = {'stalls': [0.3, 3.0]}
 BUDGET = {'quick': 250, 'thorough': 5000}
 valid = G.valid
 simplify = G.simplify
